@@ -301,8 +301,9 @@ func (g *schemaGenerator) generateDeclaredType(t *schemas.Type, scope nameScope)
 		}
 
 		// Later references to this schema must find the type that represents it
-		// instead of generating it (and its unmarshalers) once more.
-		if nt, ok := theType.(*codegen.NamedType); ok && nt.Decl != nil {
+		// instead of generating it (and its unmarshalers) once more. A type of another
+		// package stays resolved through its reference, which carries the package.
+		if nt, ok := theType.(*codegen.NamedType); ok && nt.Decl != nil && nt.Package == nil {
 			g.output.declsBySchema[t] = nt.Decl
 		}
 
